@@ -210,6 +210,22 @@ pub struct Layout {
 pub fn layout(ctx: &Ctx, prop: &str) -> Layout {
     let nc = ctx.corpus.len() as u64;
     let small = ctx.small_corpus as u64;
+    // The unoptimised profile is 4-10x slower; in the quick tier it explores a third of the
+    // random plans (same structured walks and special scenarios). Supervisor and workers see the
+    // same ASESIM_PROFILE, so job ids agree.
+    let slow = ctx.tier == Tier::Quick && std::env::var("ASESIM_PROFILE").map(|p| p == "unopt").unwrap_or(false);
+    let l = layout_full(ctx, prop, nc, small);
+    if slow {
+        Layout {
+            random_blocks: (l.random_blocks / 3).max(1),
+            ..l
+        }
+    } else {
+        l
+    }
+}
+
+fn layout_full(ctx: &Ctx, prop: &str, nc: u64, small: u64) -> Layout {
     match prop {
         "C04" => Layout {
             cell_bases: if ctx.tier == Tier::Quick { small.min(12) + ctx.n(24, 0) } else { small + 2 + ctx.n(0, 400) },
